@@ -129,8 +129,13 @@ where
         }
     };
 
-    // Remove the job if it has finished.
-    if !result.is_stopped() {
+    if result.is_stopped() {
+        // The job has been suspended again, so it becomes the current job.
+        // (The job list has not seen the job running in the meantime, so it
+        // does not reselect the current job by itself.)
+        env.jobs.set_current_job(index).ok();
+    } else {
+        // Remove the job if it has finished.
         env.jobs.remove(index);
     }
 
@@ -389,6 +394,36 @@ mod tests {
             assert_eq!(job_state, ProcessState::stopped(SIGSTOP));
             let state = state.borrow().processes[&pid].state();
             assert_eq!(state, ProcessState::stopped(SIGSTOP));
+        })
+    }
+
+    #[test]
+    fn resume_job_by_index_makes_job_suspended_again_current_job() {
+        in_virtual_system(|mut env, _state| async move {
+            env.options.set(Monitor, On);
+            let mut indices = Vec::new();
+            for _ in 0..2 {
+                let (pid, subshell_result) = Config::foreground()
+                    .start_and_wait(&mut env, async |env, _| {
+                        suspend(env).await;
+                        suspend(env).await;
+                    })
+                    .await
+                    .unwrap();
+                assert_eq!(subshell_result, ProcessResult::Stopped(SIGSTOP));
+                let mut job = Job::new(pid);
+                job.job_controlled = true;
+                job.state = subshell_result.into();
+                indices.push(env.jobs.insert(job));
+            }
+            assert_eq!(env.jobs.current_job(), Some(indices[0]));
+            assert_eq!(env.jobs.previous_job(), Some(indices[1]));
+
+            let result = resume_job_by_index(&mut env, indices[1]).await.unwrap();
+
+            assert_eq!(result, ProcessResult::Stopped(SIGSTOP));
+            assert_eq!(env.jobs.current_job(), Some(indices[1]));
+            assert_eq!(env.jobs.previous_job(), Some(indices[0]));
         })
     }
 
